@@ -222,15 +222,27 @@ ORACLE_PROPS = {
     "F-reach-dead": ["C05"], "up-dead": ["C08", "C01"], "unwrap-dead": ["C13"], "dfree": ["C03"], "layout": ["C03"],
     "bytes": ["C11", "C02"], "bufsize": ["C11"], "buflinks": ["C11"], "bufmark": ["C11"], "buffreed": ["C11", "C01"],
     "bufdup": ["C11"], "bufcount": ["C11"], "rc": ["C04"], "leak": ["C02"], "newcyc-id": ["C14"], "newcyc-addr": ["C14"],
-    "crash": ["C01", "C03", "C07"], "harness-thread-panicked": ["C07"],
+    "crash": ["C%02d" % i for i in range(1, 17)], "harness-thread-panicked": ["C07"],
+    "T-flag": ["C12"], "cb-flag": ["C12"],
 }
 
 
 def oracle_hits(lines):
+    """Oracle failures reported by the harness (`!kind`) plus oracles derived from the implementation's
+    own event stream (model-independent): a `trace` call that saw is_tracing() == false, a finalizer /
+    destructor / cleaning action that saw is_tracing() == true."""
     hits = []
     for i, l in enumerate(lines):
         for m in re.finditer(r"!([A-Za-z\-]+)", l):
             hits.append((i, m.group(1), l))
+        m = re.search(r"ev=([^|]*) \|", l)
+        if m:
+            for e in m.group(1).split(","):
+                e = e.strip()
+                if re.fullmatch(r"T\d+:0", e):
+                    hits.append((i, "T-flag", l))
+                elif re.fullmatch(r"[FDK]-?\d+:1", e):
+                    hits.append((i, "cb-flag", l))
     return hits
 
 
